@@ -32,3 +32,8 @@ def run(chk):
 
 def replay(rp):
     return gp_common.replay(rp)
+
+
+def src_search(chk):
+    """a refinement theorem of the source-translator tie broke: wider search for a concrete failing schedule"""
+    return gp_common.search_own(chk, OWN, "safety", 600 if chk.tier == "quick" else 6000)()
